@@ -217,6 +217,71 @@ theorem C17_columns (g : InMemGeff α) (hwf : WF g) (hnc : NoCollision g) :
   · intro p hp; exact exported_of_mem p _ (hwf.1 p hp) _ hp _
   · intro p hp; exact exported_of_mem p _ (hwf.2 p hp) _ hp _
 
+/-- **C17_total**: a well-formed in-memory geff never makes the export raise — column-name
+collisions included (they lose a column, see below, but raise nothing). -/
+theorem C17_total (g : InMemGeff α) (hwf : WF g) : ∃ t, geffToDataframes g = .ok t := by
+  obtain ⟨⟨nd, nw⟩, h1⟩ := addProps_total g.nodeIds.length g.nodeProps (nodeIdCols g, []) hwf.1
+  obtain ⟨⟨ed, ew⟩, h2⟩ := addProps_total g.edgeIds.length g.edgeProps (edgeIdCols g, []) hwf.2
+  exact ⟨⟨nd, nw, ed, ew⟩, by simp only [geffToDataframes, h1, h2]⟩
+
+/-! ## CSV files: an existing CSV is only replaced on request
+
+`geffToCsv fs base nodeCsv edgeCsv overwrite = (raised, fs')` models the two `to_csv` calls of
+`geff_to_csv` on a file system `path ↦ content` (the CSV *text* is pandas' and not modelled). -/
+
+theorem csv_paths_ne (base : String) : base ++ "-nodes.csv" ≠ base ++ "-edges.csv" := by
+  rw [Ne, String.append_right_inj]; decide
+
+/-- **C17_csv_no_clobber**: without `overwrite` — whatever happens (both files written, or
+`FileExistsError` after zero or one file) — every file that existed before the call still has its
+old content. -/
+theorem C17_csv_no_clobber (fs : FS) (base nodeCsv edgeCsv : String) (q c : String)
+    (hq : fsGet fs q = some c) : fsGet (geffToCsv fs base nodeCsv edgeCsv false).2 q = some c := by
+  unfold geffToCsv
+  have h1 := toCsv_keeps fs (base ++ "-nodes.csv") nodeCsv q c hq
+  rcases hr : toCsv fs (base ++ "-nodes.csv") nodeCsv false with ⟨raised, fs'⟩
+  rw [hr] at h1
+  cases raised with
+  | true => exact h1
+  | false => exact toCsv_keeps fs' (base ++ "-edges.csv") edgeCsv q c h1
+
+/-- **C17_csv_refuses**: without `overwrite`, an existing node or edge CSV makes the call raise
+(`FileExistsError`). -/
+theorem C17_csv_refuses (fs : FS) (base nodeCsv edgeCsv : String)
+    (h : (fsGet fs (base ++ "-nodes.csv")).isSome = true ∨ (fsGet fs (base ++ "-edges.csv")).isSome = true) :
+    (geffToCsv fs base nodeCsv edgeCsv false).1 = true := by
+  unfold geffToCsv toCsv
+  by_cases hn : (fsGet fs (base ++ "-nodes.csv")).isSome = true
+  · simp [hn]
+  · have he : (fsGet fs (base ++ "-edges.csv")).isSome = true := h.resolve_left hn
+    have hn' : (fsGet fs (base ++ "-nodes.csv")).isSome = false := by simpa using hn
+    simp [hn', fsGet_fsSet_other fs _ nodeCsv _ (csv_paths_ne base).symm, he]
+
+/-- **C17_csv_written**: on request, or when neither file exists, nothing is raised, both files
+hold the new tables and no other file changes. -/
+theorem C17_csv_written (fs : FS) (base nodeCsv edgeCsv : String) (overwrite : Bool)
+    (h : overwrite = true ∨ (fsGet fs (base ++ "-nodes.csv") = none ∧ fsGet fs (base ++ "-edges.csv") = none)) :
+    (geffToCsv fs base nodeCsv edgeCsv overwrite).1 = false ∧
+    fsGet (geffToCsv fs base nodeCsv edgeCsv overwrite).2 (base ++ "-nodes.csv") = some nodeCsv ∧
+    fsGet (geffToCsv fs base nodeCsv edgeCsv overwrite).2 (base ++ "-edges.csv") = some edgeCsv ∧
+    ∀ q, q ≠ base ++ "-nodes.csv" → q ≠ base ++ "-edges.csv" →
+      fsGet (geffToCsv fs base nodeCsv edgeCsv overwrite).2 q = fsGet fs q := by
+  have hne := csv_paths_ne base
+  have key : geffToCsv fs base nodeCsv edgeCsv overwrite =
+      (false, fsSet (fsSet fs (base ++ "-nodes.csv") nodeCsv) (base ++ "-edges.csv") edgeCsv) := by
+    unfold geffToCsv toCsv
+    rcases h with h | ⟨h1, h2⟩
+    · simp [h]
+    · simp [h1, fsGet_fsSet_other fs _ nodeCsv _ hne.symm, h2]
+  rw [key]
+  refine ⟨rfl, ?_, fsGet_fsSet_same _ _ _, ?_⟩
+  · rw [fsGet_fsSet_other _ _ _ _ hne, fsGet_fsSet_same]
+  · intro q h1 h2
+    rw [fsGet_fsSet_other _ _ _ _ h2, fsGet_fsSet_other _ _ _ _ h1]
+
+example : geffToCsv [("out-edges.csv", "old")] "out" "N" "E" false = (true, [("out-edges.csv", "old"), ("out-nodes.csv", "N")]) := by
+  decide
+
 /-! ## The hypothesis `NoCollision` is necessary: a known finding
 
 A node property called `id` silently replaces the node-id column (model and implementation agree;
